@@ -435,7 +435,7 @@ func (x *explorer) explore(p path, ep *epoch, depth int) {
 		}
 		x.statesByDepth[depth]++
 		flaky := 0
-		if record {
+		if record || x.sc.Fault != nil {
 			flaky = x.sc.FlakyRecovery
 		}
 		x.n++
@@ -557,7 +557,11 @@ func (x *explorer) judge(p path, hist []histPart, f *facts, cp *crashPoint, rec 
 			pr := pair{d.msg, r}
 			delivered := d.sum != nil && d.sum.DeliveredTo(r)
 			// (2) aborted before the stop: never delivered after restart
-			if f.aborted[d.msg] && delivered {
+			if f.aborted[d.msg] && delivered && m.Fate == fateIOError && sc.Fault != nil {
+				// I/O-error family: the signature names the failed call, not the
+				// crash variant (the stop comes after the transaction has ended)
+				c.Violation("aborted-delivered-after-restart/io-error/"+sc.Fault.opName(), fmt.Sprintf("%s of message %s failed with %v while the queue was accepting it; Body returned that error and the transaction was aborted (Abort had returned) before the stop at %s, yet the restarted queue delivered the message to %s", sc.Fault.opName(), d.msg, sc.Fault.Err, cp, r), wit(map[string]any{"injected_fault": sc.Fault.describe()}))
+			} else if f.aborted[d.msg] && delivered {
 				c.Violation("aborted-delivered-after-restart/"+fateNames[m.Fate]+"/"+variant, fmt.Sprintf("message %s was aborted (Abort had returned) before the crash at %s, yet recovery delivered it to %s", d.msg, cp, r), wit(nil))
 			}
 			// (4) not re-sent once a later attempt had begun
@@ -583,12 +587,31 @@ func (x *explorer) judge(p path, hist []histPart, f *facts, cp *crashPoint, rec 
 		}
 	}
 	for pr := range after.reported {
+		if m := sc.msg(pr.M); m != nil && m.Fate == fateIOError && sc.Fault != nil && f.aborted[pr.M] {
+			// the restarted queue took the aborted message up and, the downstream
+			// refusing it, reported its failure to the sender (who was told at DATA
+			// time that the message had not been accepted)
+			c.Violation("aborted-reported-after-restart/io-error/"+sc.Fault.opName(), fmt.Sprintf("%s of message %s failed with %v while the queue was accepting it and the transaction was aborted before the stop at %s, yet the restarted queue attempted the message and sent a failure report for %s", sc.Fault.opName(), pr.M, sc.Fault.Err, cp, pr.R), wit(map[string]any{"injected_fault": sc.Fault.describe()}))
+		}
 		if why, ok := f.constraint[pr]; ok && why == "delivered" {
 			// a report for a delivered recipient is C01's business; counted only
 			x.r.Count("observation_report_after_delivery", 1)
 		}
 	}
 	x.r.Count("aborted_messages_checked", int64(len(f.aborted)))
+	if sc.Fault != nil {
+		for _, id := range keys(f.aborted) {
+			if m := sc.msg(id); m != nil && m.Fate == fateIOError {
+				x.r.Count("io_error_aborted_then_restarted_judged", 1)
+				x.r.Count("io_error_aborted_then_restarted_judged_"+sc.Fault.counterName(), 1)
+			}
+		}
+		for _, id := range keys(f.acked) {
+			if m := sc.msg(id); m != nil && m.Fate == fateIOError && sc.Fault.didFire() {
+				x.r.Count("io_error_swallowed_message_accepted_judged", 1)
+			}
+		}
+	}
 	x.r.Count("later_attempt_constraints_checked", int64(len(f.constraint)))
 
 	// (1) acknowledged mail survives: needs the recovery to have come to rest
@@ -759,6 +782,12 @@ func TestVerif(t *testing.T) {
 	nPipe := r.N(10, 60)
 	for k := 0; k < nPipe; k++ {
 		indices = append(indices, pipeBase+k)
+	}
+	// group F (fault_test.go): I/O ERROR RETURNS while a message is being
+	// accepted; its cases enumerate their own recording runs (one per failed call)
+	for k := 0; k < r.N(nFaultCases, 5*nFaultCases); k++ {
+		i := faultBase + k
+		r.Run(i, fmt.Sprintf("io-error-%d", i), func(c *rep.Case) { runFaultCase(t, r, c, i) })
 	}
 	for _, i := range indices {
 		i := i
